@@ -2575,9 +2575,34 @@ FROM (
             and self._get_node_type(node.condition.left) == _DATASET
             and self._get_node_type(node.condition.right) == _DATASET
         )
-        cond_ds = self._get_dataset_structure(node.condition) if cond_is_ds_vs_ds else None
+        # A condition that is itself a (boolean) dataset - a dataset variable, or a dataset-level
+        # expression such as DS_1 > 15 written without membership - is used the same way.
+        def _has_membership(n: Any) -> bool:
+            if isinstance(n, AST.BinOp):
+                return (
+                    n.op == tokens.MEMBERSHIP or _has_membership(n.left) or _has_membership(n.right)
+                )
+            if isinstance(n, (AST.UnaryOp, AST.ParFunction)):
+                return _has_membership(n.operand)
+            return False
+
+        cond_is_dataset_var = (
+            not cond_is_ds_vs_ds
+            and isinstance(node.condition, (AST.VarID, AST.BinOp, AST.UnaryOp, AST.ParFunction))
+            and self._get_node_type(node.condition) == _DATASET
+            and not _has_membership(node.condition)
+        )
+        cond_ds = (
+            self._get_dataset_structure(node.condition)
+            if (cond_is_ds_vs_ds or cond_is_dataset_var)
+            else None
+        )
         if cond_ds is not None:
-            source_sql = self.visit(node.condition)
+            source_sql = (
+                f"SELECT * FROM {self._get_dataset_sql(node.condition)}"
+                if cond_is_dataset_var
+                else self.visit(node.condition)
+            )
             source_ids = list(cond_ds.get_identifiers_names())
             bool_measures = list(cond_ds.get_measures_names())
             cond_expr = f"{alias}.{quote_name(bool_measures[0])}" if bool_measures else "TRUE"
